@@ -34,6 +34,8 @@ def oracle(chk):
                 ("SHO-over-slow", qs.SHO(jnp.asarray(1e-5), jnp.asarray(0.2), s()), True),
                 ("SHO-under-edge", qs.SHO(s(), jnp.asarray(0.5 + 1.001e-3), s()), True),
                 ("SHO-over-edge", qs.SHO(s(), jnp.asarray(0.5 - 1.001e-3), s()), True),
+                ("Celerite(d<0)", qs.Celerite(jnp.asarray(25 / 6), jnp.asarray(2.5), jnp.asarray(0.6), jnp.asarray(-0.8)), True),
+                ("Celerite(b<0,d<0)", qs.Celerite(jnp.asarray(1.3), jnp.asarray(-0.2), s(0.4, 1), -s(0.8, 2)), True),
                 ("CARMA", qs.CARMA(alpha=jnp.array([1.0, 1.2]), beta=jnp.array([1.0, 3.0])), False)]
         ev = lambda i: (lambda a, b, k=base[i][1]: float(k.evaluate(jnp.asarray(a), jnp.asarray(b))))  # noqa: E731
         base = [b + (None,) for b in base]
@@ -44,7 +46,9 @@ def oracle(chk):
                 ("Tree", (base[6][1] + 0.5 * base[0][1]) * base[1][1], True, lambda a, b: (ev(6)(a, b) + 0.5 * ev(0)(a, b)) * ev(1)(a, b)),
                 ("Matern32*Celerite", base[1][1] * base[4][1], True, lambda a, b: ev(1)(a, b) * ev(4)(a, b)),
                 ("Celerite*Matern52", base[4][1] * base[2][1], True, lambda a, b: ev(4)(a, b) * ev(2)(a, b)),
-                ("(Exp+Matern32)*Cosine", (base[0][1] + base[1][1]) * base[3][1], True, lambda a, b: (ev(0)(a, b) + ev(1)(a, b)) * ev(3)(a, b))]
+                ("(Exp+Matern32)*Cosine", (base[0][1] + base[1][1]) * base[3][1], True, lambda a, b: (ev(0)(a, b) + ev(1)(a, b)) * ev(3)(a, b)),
+                ("0.7*Celerite(d<0)+Exp", 0.7 * base[13][1] + base[0][1], True, lambda a, b: 0.7 * ev(13)(a, b) + ev(0)(a, b)),
+                ("Matern32*Celerite(d<0)", base[1][1] * base[13][1], True, lambda a, b: ev(1)(a, b) * ev(13)(a, b))]
         # whole-number hyper-parameters passed as Python ints / integer arrays (integer-typed blocks must be promoted, not truncated,
         # when they are combined with real-valued ones); the independent value is that of the float-typed twin
         fv = lambda k: (lambda a, b, k=k: float(k.evaluate(jnp.asarray(a), jnp.asarray(b))))  # noqa: E731
